@@ -75,43 +75,12 @@ impl NftCons {
     }
 }
 
+// The trait's default methods: inside them `Self::ContractType` is only known as a `ContractOverrides`, so
+// every call goes through `impl ContractOverrides for Consecutive` (the example spells its methods out,
+// where the same paths resolve to the inherent functions of `Consecutive` instead - flavour ExCons).
 #[contractimpl(contracttrait)]
 impl NonFungibleToken for NftCons {
     type ContractType = Consecutive;
-
-    fn balance(e: &Env, owner: Address) -> u32 {
-        Self::ContractType::balance(e, &owner)
-    }
-    fn owner_of(e: &Env, token_id: u32) -> Address {
-        Self::ContractType::owner_of(e, token_id)
-    }
-    fn transfer(e: &Env, from: Address, to: Address, token_id: u32) {
-        Self::ContractType::transfer(e, &from, &to, token_id);
-    }
-    fn transfer_from(e: &Env, spender: Address, from: Address, to: Address, token_id: u32) {
-        Self::ContractType::transfer_from(e, &spender, &from, &to, token_id);
-    }
-    fn approve(e: &Env, approver: Address, approved: Address, token_id: u32, live_until_ledger: u32) {
-        Self::ContractType::approve(e, &approver, &approved, token_id, live_until_ledger);
-    }
-    fn approve_for_all(e: &Env, owner: Address, operator: Address, live_until_ledger: u32) {
-        Self::ContractType::approve_for_all(e, &owner, &operator, live_until_ledger);
-    }
-    fn get_approved(e: &Env, token_id: u32) -> Option<Address> {
-        Self::ContractType::get_approved(e, token_id)
-    }
-    fn is_approved_for_all(e: &Env, owner: Address, operator: Address) -> bool {
-        Self::ContractType::is_approved_for_all(e, &owner, &operator)
-    }
-    fn name(e: &Env) -> String {
-        Self::ContractType::name(e)
-    }
-    fn symbol(e: &Env) -> String {
-        Self::ContractType::symbol(e)
-    }
-    fn token_uri(e: &Env, token_id: u32) -> String {
-        Self::ContractType::token_uri(e, token_id)
-    }
 }
 
 impl NonFungibleConsecutive for NftCons {}
@@ -133,6 +102,10 @@ impl NftVotes {
     }
     pub fn mint_seq(e: &Env, to: Address) -> u32 {
         NonFungibleVotes::sequential_mint(e, &to)
+    }
+    pub fn mint_id(e: &Env, to: Address, token_id: u32) -> u32 {
+        NonFungibleVotes::mint(e, &to, token_id);
+        token_id
     }
 }
 
